@@ -419,6 +419,33 @@ Section Spec.
     | _ => Some SErr
     end.
 
+  (* sort_by / group_by / unique_by on (values, keys): the values ordered by key, values with Compare-equal
+     keys in INPUT order (stability); group_by: the runs of equal keys; unique_by: the first value of each run *)
+  Fixpoint s_insert_p (x : mv * mv) (l : list (mv * mv)) : list (mv * mv) :=
+    match l with
+    | [] => [x]
+    | y :: r => if mltb (snd x) (snd y) then x :: l else y :: s_insert_p x r
+    end.
+  Fixpoint s_runs (l : list (mv * mv)) : list (mv * list mv) :=
+    match l with
+    | [] => []
+    | (v, k) :: r => match s_runs r with
+                     | (k', g) :: gs => if meq k k' then (k, v :: g) :: gs else (k, [v]) :: (k', g) :: gs
+                     | [] => [(k, [v])]
+                     end
+    end.
+  Definition s_by (f : list (mv * mv) -> mv) (a x : mv) : option sres :=
+    match a, x with
+    | MArr vs, MArr ks =>
+        if negb (Nat.eqb (List.length vs) (List.length ks)) then Some SErr
+        else if nan_free ks then Some (SVal (f (fold_left (fun acc p => s_insert_p p acc) (combine vs ks) [])))
+        else None
+    | _, _ => Some SErr
+    end.
+  Definition s_sort_by := s_by (fun sorted => MArr (map fst sorted)).
+  Definition s_group_by := s_by (fun sorted => MArr (map (fun kg => MArr (snd kg)) (s_runs sorted))).
+  Definition s_unique_by := s_by (fun sorted => MArr (flat_map (fun kg => match snd kg with v :: _ => [v] | [] => [] end) (s_runs sorted))).
+
   (* transpose: column j collects the j-th element of every row, null where the row is short *)
   Definition s_transpose (a : mv) : sres :=
     match a with
@@ -645,6 +672,8 @@ Section Spec.
         else if is "ltrimstr" then Some (s_str2 (fun s t => MStr (s_ltrimstr s t)) a x)
         else if is "rtrimstr" then Some (s_str2 (fun s t => MStr (s_rtrimstr s t)) a x)
         else if is "trimstr" then Some (s_str2 (fun s t => MStr (s_rtrimstr (s_ltrimstr s t) t)) a x)
+        else if is "_sort_by" then s_sort_by a x else if is "_group_by" then s_group_by a x
+        else if is "_unique_by" then s_unique_by a x
         else if is "_min_by" then Some (s_minmax_by true a x) else if is "_max_by" then Some (s_minmax_by false a x)
         else if is "flatten" then s_flatten a (Some x)
         else if is "getpath" then match x with MArr p => s_getpath p a | _ => Some SErr end
